@@ -177,4 +177,105 @@ theorem scaled_div (p q : Ratio) (hp : PerOk p) (hq : PerOk q) (hl : ((Int.lcm p
   have hrq : ((y : ℚ) * (mulR p q : ℚ)) ≠ 0 := by exact_mod_cast hr0
   field_simp
 
+/-! ## floor / ceil / round on builtin representations -/
+
+theorem one_inR {r : ITy} (h : Builtin r) : r.inR 1 = true := by
+  rcases h with e | e | e | e | e | e | e <;> subst e <;> decide
+
+theorem step1_eq_b (dst : DurTy) (hr : Builtin dst.rep) (t d : Int) (h : dst.rep.inR (t + d) = true) :
+    step1 dst t d = .ok (t + d) := by
+  unfold step1
+  rw [conv_of_inR _ (builtin_w hr) _ (one_inR hr), Int.mul_one, arith_promote hr _ h]
+  simp only [bind, Except.bind, conv_of_inR _ (builtin_w hr) _ h]
+
+theorem castCore_spec_b (dst frm : DurTy) (hto : Builtin dst.rep) (hfrm : Builtin frm.rep) (hp : PerOk frm.per)
+    (hq : PerOk dst.per) (hdiv : DivOk frm.per dst.per) (c : Int) (hin : CastIn dst frm c) :
+    castCore (castK dst frm) c = .ok (Spec.cast frm.per.toRat dst.per.toRat c) := by
+  obtain ⟨hc, hmul, hres⟩ := hin
+  obtain ⟨hN, hD, hN', hD', _⟩ := cf_facts frm.per dst.per hp hq
+  unfold castK
+  rw [castCore_eq dst.rep _ _ hN hD (by have := hdiv.1; omega) (by have := hdiv.2; omega) c (builtin_sub hfrm c hc) hmul,
+    cast_val _ _ hp hq, conv_of_inR _ (builtin_w hto) _ hres]
+
+theorem floorCore_spec_b (dst frm : DurTy) (hdiv : DivOk frm.per dst.per) (hp : PairTyOkB frm dst) (c : Int)
+    (hin : CastIn dst frm c)
+    (hcmp : PairIn frm dst c (Spec.cast frm.per.toRat dst.per.toRat c))
+    (hstep : Spec.val frm.per.toRat c / dst.per.toRat < ((Spec.cast frm.per.toRat dst.per.toRat c : Int) : ℚ) →
+      dst.rep.inR (Spec.cast frm.per.toRat dst.per.toRat c + -1) = true) :
+    floorCore ⟨dst, castK dst frm, pairK frm dst⟩ c = .ok (Spec.floor frm.per.toRat dst.per.toRat c) := by
+  have hQ := toRat_pos dst.per hp.2.2.2.1
+  have hcast := castCore_spec_b dst frm hp.2.1 hp.1 hp.2.2.1 hp.2.2.2.1 hdiv c hin
+  have hlt := ltCore_b frm dst hp c _ hcmp
+  simp only [bind, Except.bind, floorCore, hcast, hlt]
+  rw [spec_lt_left _ _ hQ]
+  have key := trunc_floor_adjust (Spec.val frm.per.toRat c / dst.per.toRat)
+  unfold Spec.floor
+  rw [rat_floor_eq, ← key]
+  by_cases hx : Spec.val frm.per.toRat c / dst.per.toRat < ((Spec.cast frm.per.toRat dst.per.toRat c : Int) : ℚ)
+  · have hx' : Spec.val frm.per.toRat c / dst.per.toRat < ((Spec.trunc (Spec.val frm.per.toRat c / dst.per.toRat) : Int) : ℚ) := hx
+    rw [if_pos hx']
+    simp only [hx, decide_true, if_true]
+    rw [step1_eq_b dst hp.2.1 _ _ (hstep hx)]
+    rfl
+  · have hx' : ¬ Spec.val frm.per.toRat c / dst.per.toRat < ((Spec.trunc (Spec.val frm.per.toRat c / dst.per.toRat) : Int) : ℚ) := hx
+    rw [if_neg hx']
+    simp only [hx, decide_false, Bool.false_eq_true, if_false]
+    rfl
+
+theorem floorCtx_eq_b (dst frm : DurTy) (hdiv : DivOk frm.per dst.per) (hp : PairTyOkB frm dst) :
+    floorCtx dst frm = .ok ⟨dst, castK dst frm, pairK frm dst⟩ := by
+  unfold floorCtx
+  rw [castCtx_builtin dst frm hp.2.1 hp.1 hp.2.2.1 hp.2.2.2.1 hdiv, pairCtx_eq_b frm dst hp]
+  rfl
+
+/-! ## duration and a tick count on builtin representations -/
+
+/-- `CR op Rep2` with `CR = common_type_t<Rep1, Rep2>` is evaluated in a type that contains every value of `CR`
+    (`CR` itself, or `int` when `CR` is narrower than `int`); complete finite check: 49 pairs -/
+theorem usual_sup {a b : ITy} (ha : Builtin a) (hb : Builtin b) :
+    (ITy.usual (ITy.common a b) b).min ≤ (ITy.common a b).min ∧ (ITy.common a b).max ≤ (ITy.usual (ITy.common a b) b).max ∧
+      1 ≤ (ITy.usual (ITy.common a b) b).w := by
+  rcases ha with e | e | e | e | e | e | e <;> subst e <;>
+    rcases hb with e | e | e | e | e | e | e <;> subst e <;> decide
+
+/-- static preconditions of `duration<Rep1, Period> op Rep2` on builtin representations -/
+def ScalarTyOkB (d : DurTy) (rs : ITy) : Prop := Builtin d.rep ∧ Builtin rs ∧ PerOk d.per ∧ DivOk d.per d.per
+instance (d : DurTy) (rs : ITy) : Decidable (ScalarTyOkB d rs) := by unfold ScalarTyOkB; infer_instance
+
+theorem scalarCtx_eq_b (d : DurTy) (rs : ITy) (h : ScalarTyOkB d rs) : scalarCtx d rs = .ok (scalarK d rs) := by
+  obtain ⟨hr, hs, hp, hdiv⟩ := h
+  have hc := common_builtin hr hs
+  unfold scalarCtx
+  simp only
+  rw [castCtx_builtin ⟨ITy.common d.rep rs, d.per⟩ d hc hr hp hp hdiv]
+  simp only [bind, Except.bind, (cf_self _ hp).1, (cf_self _ hp).2]
+  rfl
+
+/-- the run-time facts every scalar operator starts from, for operands that are values of `common_type_t<Rep1, Rep2>` -/
+theorem scalar_operands_b (d : DurTy) (rs : ITy) (h : ScalarTyOkB d rs) (c s : Int) (hc : d.rep.inR c = true)
+    (hc' : (ITy.common d.rep rs).inR c = true) (hs' : (ITy.common d.rep rs).inR s = true) :
+    convertCore (scalarK d rs).k c = .ok c ∧
+      (ITy.usual (scalarK d rs).cd.rep (scalarK d rs).rs).conv c = c ∧
+      (ITy.usual (scalarK d rs).cd.rep (scalarK d rs).rs).conv s = s ∧
+      (∀ x, (ITy.common d.rep rs).inR x = true → (ITy.usual (scalarK d rs).cd.rep (scalarK d rs).rs).inR x = true) := by
+  obtain ⟨hr, hrs, hp, hdiv⟩ := h
+  have hcr := common_builtin hr hrs
+  obtain ⟨u1, u2, u3⟩ := usual_sup hr hrs
+  have sup : ∀ x, (ITy.common d.rep rs).inR x = true → (ITy.usual (ITy.common d.rep rs) rs).inR x = true := by
+    intro x hx
+    rw [inR_iff] at hx ⊢
+    omega
+  refine ⟨?_, conv_of_inR _ u3 _ (sup c hc'), conv_of_inR _ u3 _ (sup s hs'), sup⟩
+  have := convertCore_eq_b (ITy.common d.rep rs) hcr 1 (by decide) (by decide) c (builtin_sub hr c hc) (by rwa [Int.mul_one])
+  rwa [Int.mul_one] at this
+
+theorem scalar_hex {d : DurTy} {rs : ITy} (h : ScalarTyOkB d rs) (c s : Int) (hc' : (ITy.common d.rep rs).inR c = true)
+    (hex : ¬ (c = (ITy.common d.rep rs).min ∧ s = -1)) :
+    ¬ (c = (ITy.usual (ITy.common d.rep rs) rs).min ∧ s = -1) := by
+  obtain ⟨u1, _, _⟩ := usual_sup h.1 h.2.1
+  intro hh
+  apply hex
+  rw [inR_iff] at hc'
+  exact ⟨by omega, hh.2⟩
+
 end Tetl.C12
